@@ -10,7 +10,7 @@ import random
 
 from harness import common
 from checks import var_common as vc
-from checks.var_common import text, other, sweep, MISSING
+from checks.var_common import text, other, sweep, MISSING, KERR
 
 PID = 'C15'
 
@@ -29,7 +29,7 @@ def sweeps(tier):
     out = [
         sweep((tv[:7] + tv[13:15]) if tier == 'quick' else tv, 'SUBSET Modifiers'),
         sweep(tv + OTHERS, singles, fmts=c04_fmts(), sizes=tuple(range(-1, 9)) + (12, 20, 30), etcs=('default', 'none', 'tilde')),
-        sweep(tv + OTHERS + [MISSING], [[], ['upper'], ['html_quote']], fmts=('', 'upper', 'pct'),
+        sweep(tv + OTHERS + [MISSING, KERR], [[], ['upper'], ['html_quote']], fmts=('', 'upper', 'pct'),
               nulls=(False, True), missings=(False, True), sizes=(-1, 2)),
         sweep(tv, pairs, cfmts=('s', '6s'), sizes=(-1, 3, 7)),
     ]
